@@ -392,11 +392,11 @@ func (u *Unit) global(o *types.Var, env *Env) Value {
 							continue
 						}
 						if len(vs.Values) == 0 {
-							u.assumeUsed("package-level variable " + o.Name() + " keeps its zero value")
+							u.globalStable(o, "zero value")
 							return Value{u.zero(o.Type()), o.Type()}
 						}
 						if cl, ok := unparen(vs.Values[i]).(*ast.CompositeLit); ok {
-							u.assumeUsed("package-level variable " + o.Name() + " keeps its initial value")
+							u.globalStable(o, "initial value")
 							save := u.Info
 							u.Info = pkg.TypesInfo
 							v := u.evalCompositeLit(cl, env, false)
@@ -804,6 +804,18 @@ func (u *Unit) evalCompositeLit(cl *ast.CompositeLit, env *Env, addr bool) Value
 	ty := u.Info.TypeOf(cl)
 	switch t := types.Unalias(ty).Underlying().(type) {
 	case *types.Struct:
+		if nt, ok := types.Unalias(ty).(*types.Named); ok && addr && len(cl.Elts) == 0 && nt.Obj().Pkg() != nil && !strings.Contains(nt.Obj().Pkg().Path(), "TeaEntityLab") {
+			// &lib.T{} of a library struct without exported fields (bytes.Buffer, ...): a fresh object whose contents the module cannot name
+			opaque := true
+			for i := 0; i < t.NumFields(); i++ {
+				if t.Field(i).Exported() {
+					opaque = false
+				}
+			}
+			if opaque {
+				return Value{u.alloc(env, "new_"+nt.Obj().Name()), types.NewPointer(ty)}
+			}
+		}
 		si := u.structOf(ty)
 		fs := make([]Term, len(si.Fields))
 		for i, f := range si.Fields {
